@@ -619,9 +619,9 @@ func (r *sysRun) finish() {
 	if !r.done && r.became == "" {
 		// responsiveness probe: ctrl-c must end the session. Every malformed escape sequence still queued in the
 		// key decoder takes one more key press to get past (its "second chance" read blocks), so ctrl-c is
-		// pressed up to 72 times before fzf is declared unresponsive.
+		// pressed up to 360 times before fzf is declared unresponsive.
 		var out zsim.Outcome
-		for try := 0; try < 12 && !r.done && r.became == ""; try++ {
+		for try := 0; try < 60 && !r.done && r.became == ""; try++ {
 			if !r.tty.Raw {
 				// the tty is in cooked mode (fzf has not taken over the terminal, e.g. it still waits for the
 				// input to end under --sync/--select-1): ctrl-c is turned into SIGINT by the line discipline
@@ -642,7 +642,7 @@ func (r *sysRun) finish() {
 			if out == zsim.OutOfSteps {
 				c.count("inconclusive", 1)
 			} else {
-				c.violate("sys.hang", "fzf did not exit after ctrl-c was pressed 72 times over several simulated minutes (scheduler: %v); parked=%v\n%s", out, r.sim.Parked(), blockedStacks())
+				c.violate("sys.hang", "fzf did not exit after ctrl-c was pressed 360 times over several simulated minutes (scheduler: %v); parked=%v\n%s", out, r.sim.Parked(), blockedStacks())
 			}
 		}
 	}
